@@ -1,6 +1,6 @@
 #!/bin/bash
-# confirm_queue.sh <id>... : confirm seeds one after the other (they share one scratch worktree)
-for id in "$@"; do
-  while pgrep -f "confirm_seed.sh" >/dev/null; do sleep 20; done
-  /verif/tools/confirm_seed.sh "$id" /verif/seeded/"$id" shuttle seeded_demo
+# confirm_queue.sh <id>[:<demo package>]... : confirm seeds one after the other (they share one scratch worktree)
+for item in "$@"; do
+  id=${item%%:*}; pkg=shuttle; [ "$item" != "$id" ] && pkg=${item#*:}
+  /verif/tools/confirm_seed.sh "$id" /verif/seeded/"$id" "$pkg" seeded_demo
 done
